@@ -6,6 +6,8 @@
 //!        acct = `<key>:<owner>:<signer 0|1>:<writable 0|1>:<data hex>`
 //!   `meta <chain>`                       the chain's advertised `SingleSetMeta`              -> `<signer><writable>`
 //!   `eq <a:hex32> <b:hex32>`             the framework's fast 32-byte comparison            -> `1` | `0`
+//!   `seq <progid> <vec|arrN> <bcast|vecargs|arrargs> <chain with seeded:ARG> <m> <pda>*m <acct>*`
+//!        a `Vec<E>` / `[E; N]` of argument-taking elements validated with `(arg,)` / `Vec<arg>` / `[arg; M]`
 //!
 //! Every nest string corresponds to a REAL Rust type: `build.rs` generates the types (and the derived
 //! structs they need) for `nests.txt` and for ≈50 random nests of the grammar; the `Init` / `Seeded`
@@ -132,6 +134,11 @@ fn s1() -> HxSeeds {
     HxSeeds { n: 1 }
 }
 
+/// The PDA `Seeded<_, HxSeeds>` expects for `HxSeeds { n }` under the executing program.
+fn pda(n: u8) -> [u8; 32] {
+    Pubkey::find_program_address(&HxSeeds { n }.seeds(), &PROGRAM_ID).0.to_bytes()
+}
+
 /// The `Init` (validated with `CreateIfNeeded(())`) and `Seeded` (validated with `Seeds(..)`) nests.
 fn hand_nests() -> Vec<(&'static str, Runner, Option<MetaFn>, bool)> {
     macro_rules! init {
@@ -181,7 +188,8 @@ fn sym(kind: &str, name: &str) -> String {
             let (p, d, _) = type_info(t);
             format!("{}:{}", hex(&p), hex(&d))
         }
-        ("pda", "S1") => hex(Pubkey::find_program_address(&s1().seeds(), &PROGRAM_ID).0.as_ref()),
+        ("pda", "ARG") => "ARG".into(),
+        ("pda", n) if n.starts_with('S') => hex(&pda(n[1..].parse().expect("pda symbol"))),
         (k, n) => panic!("unknown symbol {k}:{n}"),
     }
 }
@@ -370,10 +378,130 @@ fn oracle_accepts(set: &Set, accs: &[Acc]) -> bool {
     }
 }
 
+// ---------------------------------------------------------------- sequences validated with argument lists
+/// `Vec<E>` / `[E; N]` whose element `E` takes a validate argument (`Seeds(HxSeeds { n })`), validated with the
+/// `(arg,)`, `Vec<arg>` and `[arg; M]` forms.
+pub type SeqRunner = fn(&[AccountInfo], &str, &str, &[u8]) -> String;
+
+fn run_seq<E>(accounts: &[AccountInfo], carrier: &str, form: &str, ns: &[u8]) -> String
+where
+    E: for<'a> AccountSetDecode<'a, ()> + AccountSetValidate<Seeds<HxSeeds>>,
+{
+    let args: Vec<Seeds<HxSeeds>> = ns.iter().map(|n| Seeds(HxSeeds { n: *n })).collect();
+    let r = hx_common::catch(|| {
+        let mut ctx = Context::new(&PROGRAM_ID);
+        let mut accs = accounts;
+        macro_rules! fin {
+            ($r:expr) => {
+                match $r {
+                    Ok(()) => "ok".to_string(),
+                    Err(e) => classify(e),
+                }
+            };
+        }
+        macro_rules! arr_args {
+            ($set:expr, $($m:literal),*) => {
+                match args.len() {
+                    $($m => {
+                        let a: [Seeds<HxSeeds>; $m] = args.clone().try_into().unwrap();
+                        fin!($set.validate_accounts(a, &mut ctx))
+                    })*
+                    _ => "bad-op".to_string(),
+                }
+            };
+        }
+        macro_rules! array {
+            ($n:literal) => {{
+                let mut set = match <[E; $n] as AccountSetDecode<'_, ()>>::decode_accounts(&mut accs, (), &mut ctx) {
+                    Ok(s) => s,
+                    Err(e) => return classify(e),
+                };
+                match form {
+                    "bcast" if args.len() == 1 => fin!(set.validate_accounts((args[0].clone(),), &mut ctx)),
+                    "arrargs" if args.len() == $n => arr_args!(set, $n),
+                    _ => "bad-op".to_string(),
+                }
+            }};
+        }
+        match carrier {
+            "vec" => {
+                let mut set = match <Vec<E> as AccountSetDecode<'_, usize>>::decode_accounts(&mut accs, accounts.len(), &mut ctx) {
+                    Ok(s) => s,
+                    Err(e) => return classify(e),
+                };
+                match form {
+                    "bcast" if args.len() == 1 => fin!(set.validate_accounts((args[0].clone(),), &mut ctx)),
+                    "vecargs" => fin!(set.validate_accounts(args.clone(), &mut ctx)),
+                    "arrargs" => arr_args!(set, 0, 1, 2, 3, 4),
+                    _ => "bad-op".to_string(),
+                }
+            }
+            "arr1" => array!(1),
+            "arr2" => array!(2),
+            "arr3" => array!(3),
+            _ => "bad-op".to_string(),
+        }
+    });
+    r.unwrap_or_else(|_| "panic".to_string())
+}
+
+pub struct SeqElem {
+    pub outer: Vec<L>,
+    pub inner: Vec<L>,
+    pub base: B,
+    pub rendered: String,
+    pub run: SeqRunner,
+}
+impl SeqElem {
+    fn chain(&self, sym_name: &str) -> Set {
+        let mut ls = self.outer.clone();
+        ls.push(L::Seeded(sym_name.into()));
+        ls.extend(self.inner.clone());
+        Set::Chain(ls, self.base.clone())
+    }
+}
+
+pub fn seq_elems() -> Vec<SeqElem> {
+    macro_rules! e {
+        ($s:expr, $t:ty) => {{
+            let Some(Set::Chain(ls, base)) = spec::parse($s) else { panic!("bad seq elem") };
+            let p = ls.iter().position(|l| *l == L::Seeded("ARG".into())).expect("seeded:ARG");
+            SeqElem { outer: ls[..p].to_vec(), inner: ls[p + 1..].to_vec(), base: base.clone(), rendered: Set::Chain(ls.clone(), base).render(&sym), run: run_seq::<$t> as SeqRunner }
+        }};
+    }
+    vec![
+        e!("seeded:ARG,acct:zc8", Seeded<Account<Zc8>, HxSeeds>),
+        e!("seeded:ARG,signer,mut,info", Seeded<Signer<Mut<AccountInfo>>, HxSeeds>),
+        e!("mut,seeded:ARG,sysacct", Mut<Seeded<SystemAccount, HxSeeds>>),
+        e!("box,seeded:ARG,box,signer,info", Box<Seeded<Box<Signer<AccountInfo>>, HxSeeds>>),
+    ]
+}
+
+/// Plain-Rust oracle for the argument forms: enough arguments (`Vec<arg>`: at least as many as elements;
+/// `[arg; M]`: exactly as many), and EVERY element accepts under the argument at its index.
+fn oracle_seq(e: &SeqElem, carrier: &str, form: &str, ns: &[u8], accs: &[Acc]) -> bool {
+    let n = if carrier == "vec" { accs.len() } else { carrier[3..].parse().unwrap() };
+    if accs.len() < n {
+        return false;
+    }
+    let len_ok = match form {
+        "bcast" => true,
+        "vecargs" => ns.len() >= n,
+        _ => ns.len() == n,
+    };
+    len_ok
+        && (0..n).all(|i| {
+            let arg = if form == "bcast" { ns[0] } else { ns[i] };
+            let Set::Chain(ls, b) = e.chain(&format!("S{arg}")) else { unreachable!() };
+            all_ok(&D::One(ls, b, accs[i].clone()))
+        })
+}
+
 // ---------------------------------------------------------------- execution
 struct Run<'a> {
     rec: Recorder,
     nests: &'a [Nest],
+    seqs: &'a [SeqElem],
 }
 
 impl Run<'_> {
@@ -389,13 +517,38 @@ impl Run<'_> {
         self.rec.bump(&format!("ans:{ans}"));
         let want = oracle_accepts(&n.spec, accs);
         if ans == "panic" {
-            // the only panic the nests can reach is the known `Init` slice panic on data shorter than the discriminant (D12b, C12)
-            let init_short = n.rendered.contains("init");
-            if !init_short {
-                self.rec.fail("nest_panics", &line);
-            }
+            // no nest may panic (the `Init` slice panic on data shorter than the discriminant, D12b, is repaired: d51f9cb)
+            self.rec.fail("nest_panics", &line);
         } else if (ans == "ok") != want {
             self.rec.fail(if want { "nest_rejects_valid_accounts" } else { "nest_accepts_invalid_accounts" }, &format!("{line} -> {ans}, oracle accepts={want}"));
+        }
+        ans
+    }
+    fn exec_seq(&mut self, e: &SeqElem, carrier: &str, form: &str, ns: &[u8], accs: &[Acc]) -> String {
+        let line = format!(
+            "seq {} {carrier} {form} {} {}{}{}",
+            hex(PROGRAM_ID.as_ref()),
+            e.rendered,
+            ns.len(),
+            ns.iter().map(|n| format!(" {}", hex(&pda(*n)))).collect::<String>(),
+            accs.iter().map(|a| format!(" {}", a.tok())).collect::<String>()
+        );
+        let specs: Vec<AcctSpec> = accs
+            .iter()
+            .map(|a| AcctSpec::new(Pubkey::new_from_array(a.key), Pubkey::new_from_array(a.owner)).signer(a.signer).writable(a.writable).data(a.data.clone()).lamports(1_000_000))
+            .collect();
+        let world = World::new(&specs);
+        let ans = (e.run)(world.infos(), carrier, form, ns);
+        self.rec.op(&line, &ans);
+        if ans == "bad-op" {
+            return ans;
+        }
+        self.rec.bump(&format!("seq:{form}:{}", if ans == "ok" { "ok" } else { ans.as_str() }));
+        let want = oracle_seq(e, carrier, form, ns, accs);
+        if ans == "panic" {
+            self.rec.fail("seq_panics", &line);
+        } else if (ans == "ok") != want {
+            self.rec.fail(if want { "seq_rejects_valid_accounts" } else { "seq_accepts_unvalidated_element" }, &format!("{line} -> {ans}, oracle accepts={want}"));
         }
         ans
     }
@@ -432,6 +585,24 @@ impl Run<'_> {
                         self.exec_nest(n, &accs);
                     }
                     _ => self.rec.op(l, "bad-op"),
+                }
+            }
+            ["seq", pid, carrier, form, chain, m, rest @ ..] => {
+                let seqs = self.seqs;
+                let strict = |x: &str| if x.chars().all(|c| c.is_ascii_hexdigit()) { unhex(x).and_then(|v| <[u8; 32]>::try_from(v).ok()) } else { None };
+                let m: Option<usize> = if !m.is_empty() && m.len() <= 2 && m.chars().all(|c| c.is_ascii_digit()) { m.parse().ok() } else { None };
+                let parsed = (|| {
+                    let m = m.filter(|m| *m <= rest.len())?;
+                    let ns: Vec<u8> = rest[..m].iter().map(|k| strict(k).and_then(|k| (0..=64u8).find(|n| pda(*n) == k))).collect::<Option<_>>()?;
+                    let accs: Vec<Acc> = rest[m..].iter().map(|a| Acc::parse(a)).collect::<Option<_>>()?;
+                    let e = seqs.iter().find(|e| e.rendered == *chain)?;
+                    (*pid == hex(PROGRAM_ID.as_ref())).then_some((e, ns, accs))
+                })();
+                match parsed {
+                    Some((e, ns, accs)) => {
+                        self.exec_seq(e, carrier, form, &ns, &accs);
+                    }
+                    None => self.rec.op(l, "bad-op"),
                 }
             }
             ["meta", chain] => match nests.iter().find(|n| n.rendered == *chain && n.meta.is_some()) {
@@ -520,6 +691,7 @@ fn flip(k: &[u8; 32], bit: usize) -> [u8; 32] {
 pub fn run(args: &Args) {
     install_hooks();
     let table = nests();
+    let seq_table = seq_elems();
     let mut r = Run {
         rec: Recorder::new(
             "one case per nest type (hand-picked nests of nests.txt + Init/Seeded nests + random nests of the layer grammar generated by build.rs, each a real Rust type): \
@@ -529,6 +701,7 @@ pub fn run(args: &Args) {
              one rejected account list; distinct by case text hash.",
         ),
         nests: &table,
+        seqs: &seq_table,
     };
     if let Some(cases) = args.replay_cases() {
         for c in cases {
@@ -657,6 +830,73 @@ pub fn run(args: &Args) {
             }
         }
         if r.rec.distribution.get("ans:ok").copied().unwrap_or(0) > before_ok {
+            r.rec.mark_nontrivial();
+        }
+        r.rec.sample_current(0);
+    }
+    // sequences of argument-taking elements validated with (arg,), Vec<arg>, [arg; M]: argument lists of length
+    // n-1, n, n+1 for n = 0..3 decoded elements; all-good accounts, and one bad account at every position
+    // (in particular the LAST one) — so an element that escapes validation is seen
+    for e in seq_table.iter() {
+        ci += 1;
+        let name = e.chain("ARG").show();
+        r.rec.case(&format!("case {ci} seq {name}"));
+        let before_ok = r.rec.distribution.get("seq:vecargs:ok").copied().unwrap_or(0);
+        let mut cfgs: Vec<(String, &str, usize, usize)> = vec![]; // carrier, form, n, m
+        for n in 0..=3usize {
+            cfgs.push(("vec".into(), "bcast", n, 1));
+            for m in [n.wrapping_sub(1), n, n + 1] {
+                if m <= 4 {
+                    cfgs.push(("vec".into(), "vecargs", n, m));
+                    cfgs.push(("vec".into(), "arrargs", n, m));
+                }
+            }
+            if n >= 1 {
+                cfgs.push((format!("arr{n}"), "bcast", n, 1));
+                cfgs.push((format!("arr{n}"), "arrargs", n, n));
+            }
+        }
+        for (carrier, form, n, m) in cfgs {
+            // argument i = seed number 10 + i (broadcast: all elements share argument 10)
+            let ns: Vec<u8> = (0..m).map(|i| 10 + i as u8).collect();
+            let arg_of = |i: usize| if form == "bcast" { 10 } else { 10 + i as u8 };
+            let mut base = vec![];
+            for i in 0..n {
+                good(&e.chain(&format!("S{}", arg_of(i))), None, 0, &mut rng, &mut base);
+            }
+            r.exec_seq(e, &carrier, form, &ns, &base);
+            for i in 0..n {
+                for v in 0..6 {
+                    let mut accs = base.clone();
+                    let a = &mut accs[i];
+                    match v {
+                        0 => a.key = pda(arg_of(i).wrapping_add(1)), // the PDA of ANOTHER argument
+                        1 => a.key = flip(&a.key, rng.below(256) as usize),
+                        2 => a.signer = false,
+                        3 => a.writable = false,
+                        4 => a.owner = flip(&a.owner, rng.below(256) as usize),
+                        _ => {
+                            if a.data.is_empty() {
+                                a.owner = key_from(rng.next() | 1).to_bytes()
+                            } else {
+                                a.data[0] ^= 1
+                            }
+                        }
+                    }
+                    r.exec_seq(e, &carrier, form, &ns, &accs);
+                }
+            }
+            if n >= 1 && carrier != "vec" {
+                r.exec_seq(e, &carrier, form, &ns, &base[..n - 1]); // an array one account short
+            }
+            if n >= 2 {
+                // the accounts of two elements swapped: each is fine under the OTHER's argument only
+                let mut accs = base.clone();
+                accs.swap(0, n - 1);
+                r.exec_seq(e, &carrier, form, &ns, &accs);
+            }
+        }
+        if r.rec.distribution.get("seq:vecargs:ok").copied().unwrap_or(0) > before_ok {
             r.rec.mark_nontrivial();
         }
         r.rec.sample_current(0);
